@@ -596,7 +596,11 @@ Section Render.
               rbind (log_write (`"bhm(" ++ hv_name h ++ `")") s) (fun _ s1 => opt_render f (hv_tpl h) s1)
           | HLocal n =>
               let txt := `"local(" ++ n ++ `":" ++ params_text (hv_params h) ++ `")" in
-              if starts_with (`"w:") n
+              if starts_with (`"f:") n
+              then (* logs the usual line, then write!(out, "literal-0123456789") — a format string
+                      without arguments *)
+                   out_write (`"literal-0123456789") (log_entry s txt)
+              else if starts_with (`"w:") n
               then (* logs the usual line, writes the rendered text of its first parameter (nothing if
                       there is none), unescaped *)
                    out_write (match hv_params h with p :: _ => render_json (pj_value p) | [] => [] end)
